@@ -18,7 +18,7 @@ from .extract import ExtractError, SP_OPEN, SP_CLOSE
 from .unit import Unit, VERIF, fn_at_line, marker_for_line
 
 REPO = os.environ.get('VERIF_REPO', '/repo')
-WORK = os.path.join(VERIF, '.work')
+WORK = os.environ.get('VERIF_WORK') or os.path.join(VERIF, '.work')
 VERUS = shutil.which('verus') or '/usr/local/bin/verus'
 
 VERIF_KINDS = [
